@@ -3,4 +3,5 @@ CONSTANTS
   ImplSingleWrite = TRUE
   MaxLen = 6
 INVARIANT DeliveredInFull OkMeansDelivered
+CONSTRAINT Bounded
 CHECK_DEADLOCK FALSE
